@@ -1,6 +1,6 @@
 SPECIFICATION Spec
 CONSTANTS
   MaxSteps = 4
-  Subs = {"emit"}
+  Subs = {"emit", "build"}
 INVARIANTS FreshEqualsReused Dependencies FedIsCurrent EmitCase
 CHECK_DEADLOCK FALSE
